@@ -159,7 +159,7 @@ def _worker(args):
     """one process: generate + execute histories on the real jsondb, monitor them, run the extracted model"""
     i, per, maxops, first, scratch, seed, tool, exe = args
     p = os.path.join(scratch, "xh-%d.jsonl" % i)
-    rc, out, dt = vlib.run_tool(tool, [p, "gen", per, maxops, first], env_extra={"VERIF_SEED": str(seed)}, timeout=6000)
+    rc, out, dt = vlib.run_tool(tool, [p, "gen", per, maxops, first], env_extra={"VERIF_SEED": str(seed), "VERIF_NOTEAR": "1"}, timeout=6000)   # the extracted driver knows store operations only
     if rc != 0:
         return {"err": out[-800:]}
     hs = vlib.read_jsonl(p)
@@ -201,7 +201,7 @@ def _worker(args):
     return r
 
 
-def sweep(ctx, tool, n_total=5000, maxops=100, procs=14):
+def sweep(ctx, tool, n_total=4500, maxops=100, procs=14):
     """long histories on the real jsondb -> monitor (python) + extracted model (correspondence), in worker processes"""
     from concurrent.futures import ProcessPoolExecutor
     from props import C06
